@@ -459,6 +459,119 @@ def _b64decode(x: Any, *a: Any, **k: Any) -> Any:
     return _base64.b64decode(x, *a, **k)
 
 
+
+class SymRangeSet:
+    """frozenset(<symbolic ranges / numbers>) kept as a union of intervals;
+    membership is a z3 term, intersection with a real set filters its members
+    (forking per member).  Never enumerates a symbolic range."""
+    _sym = True
+
+    def __init__(self, parts: list) -> None:
+        self.parts = parts  # SymRange | range | int | SymInt
+
+    def contains_term(self, x: Any) -> Any:
+        from .core import OR, B
+        conds = []
+        for p in self.parts:
+            if isinstance(p, (SymRange, range)):
+                if isinstance(p, range) and p.step != 1:
+                    raise Unsupported('stepped range in symbolic set')
+                conds.append(B(x >= p.start) & B(x < p.stop))
+            else:
+                conds.append(B(x == p))
+        return OR(*conds)
+
+    def __contains__(self, x: Any) -> bool:
+        return bool(self.contains_term(x))
+
+    def __and__(self, other: Any) -> Any:
+        if isinstance(other, SymRangeSet):
+            raise Unsupported('SymRangeSet & SymRangeSet')
+        return frozenset(m for m in other if self.contains_term(m))
+
+    __rand__ = __and__
+
+    def __bool__(self) -> bool:
+        for p in self.parts:
+            if isinstance(p, (SymRange, range)):
+                if p.start < p.stop:
+                    return True
+            else:
+                return True
+        return False
+
+    def __iter__(self) -> Any:
+        for p in self.parts:
+            if isinstance(p, (SymRange, range)):
+                yield from p
+            else:
+                yield p
+
+    def __hash__(self) -> int:
+        raise Unsupported('hash(SymRangeSet)')
+
+
+class SymChain:
+    """chain.from_iterable over parts of which some are symbolic ranges"""
+    _sym = True
+
+    def __init__(self, parts: list) -> None:
+        self.parts = parts
+
+    def __iter__(self) -> Any:
+        for p in self.parts:
+            yield from p
+
+
+class _FrozensetMeta2(type):
+    def __instancecheck__(cls, x: Any) -> bool:
+        return isinstance(x, (frozenset, SymRangeSet))
+
+
+class _frozenset(frozenset, metaclass=_FrozensetMeta2):
+    def __new__(cls, *a: Any) -> Any:
+        if a:
+            x = a[0]
+            if isinstance(x, SymRange):
+                return SymRangeSet([x])
+            if isinstance(x, SymChain):
+                parts: list = []
+                for p in x.parts:
+                    if isinstance(p, (SymRange, range)):
+                        if isinstance(p, range) and len(p) <= 64:
+                            parts.extend(p)
+                        else:
+                            parts.append(p)
+                    else:
+                        parts.extend(p)
+                return SymRangeSet(parts)
+            if isinstance(x, SymRangeSet):
+                return x
+        return frozenset(*a)
+
+
+def _iter(*a: Any) -> Any:
+    if len(a) == 1 and isinstance(a[0], (SymRange, SymChain)):
+        return a[0]
+    return iter(*a)
+
+
+import itertools as _itertools
+
+
+class _chain(_itertools.chain):
+    @classmethod
+    def from_iterable(cls, it: Any) -> Any:
+        parts = list(it)
+        if any(isinstance(p, SymRange) for p in parts):
+            return SymChain(parts)
+        return _itertools.chain.from_iterable(parts)
+
+
+_itertools_facade = types.ModuleType('itertools')
+_itertools_facade.__dict__.update(vars(_itertools))
+_itertools_facade.chain = _chain  # type: ignore
+
 def _import(name: str, globals: Any = None, locals: Any = None,
             fromlist: Any = (), level: int = 0) -> Any:
     if level == 0:
@@ -468,6 +581,8 @@ def _import(name: str, globals: Any = None, locals: Any = None,
             return _io_facade
         if name == 'base64':
             return _b64_facade
+        if name == 'itertools':
+            return _itertools_facade
     return builtins.__import__(name, globals, locals, fromlist, level)
 
 
@@ -515,7 +630,7 @@ _b64_facade.b64decode = _b64decode  # type: ignore
 SYM_BUILTINS = dict(vars(builtins))
 SYM_BUILTINS.update(
     bytes=_bytes, bytearray=_bytearray, memoryview=_memoryview, int=_int,
-    str=_str, dict=SymDict, chr=_chr, ord=_ord, min=_min, max=_max, range=_range,
+    str=_str, dict=SymDict, frozenset=_frozenset, iter=_iter, chr=_chr, ord=_ord, min=_min, max=_max, range=_range,
     __import__=_import)
 
 
@@ -571,6 +686,8 @@ def _h_mod(a: Any, b: Any) -> Any:
 
 def _h_in(x: Any, container: Any) -> Any:
     t = type(container)
+    if t is SymRangeSet:
+        return container.contains_term(x)
     if t in (set, frozenset, dict):
         if not container:
             return False
